@@ -21,6 +21,7 @@ clause about bodies cannot speak about such scripts (`Witness.no101_hypothesis_i
 -/
 import CaddyModel.C15.Lemmas
 import CaddyModel.C15.Witness
+import CaddyModel.Gen.Encode
 
 namespace CaddyModel.C15
 
@@ -364,7 +365,7 @@ theorem caddyfile_valid_unless_block_repeats (args : List Bytes) (block : List L
     simp [hlvl, hv]
   · show provisionMinLen st.minLen ≠ 0
     by_cases hz : st.minLen = 0
-    · simp [provisionMinLen, hz]
+    · simp [provisionMinLen, hz, defaultMinLength]
     · simp [provisionMinLen, hz]
 
 /-- `Provision`'s defaults -/
@@ -398,6 +399,32 @@ theorem adapted_negotiation_within_directive (args : List Bytes) (block : List L
   | parseErr => rw [hp] at ha; cases ha
   | loadErr => rw [hp] at ha; cases ha
   | unsupported => rw [hp] at ha; cases ha
+
+/-! ### ties to the source: facts REGENERATED from /repo on every run (tools/extract → Gen/Encode.lean).
+    A change of one of these literals / call sequences in the Go source changes `Gen.*` and the theorem below
+    no longer elaborates — the proof obligation breaks without any sampled case having to hit it. -/
+
+/-- `init`'s header edits are the fold of the edit list … -/
+theorem initHdr_is_its_edit_list (name : Bytes) (h : Hdr) :
+    initHdr name h = initEdits.foldl (applyInitEdit name) h := rfl
+
+/-- … and that list is, call for call and in order, what `responseWriter.init` does in the source:
+    Del Content-Length, Set Content-Encoding, Add Vary, Del Accept-Ranges, Set Etag -/
+theorem init_edits_match_source :
+    initEdits.map InitEdit.describe = CaddyModel.Gen.encodeInitHeaderEdits.map str := by decide
+
+/-- the default response matcher of the model is the literal of `Provision` -/
+theorem default_matcher_matches_source :
+    defaultCtPats = CaddyModel.Gen.encodeDefaultContentTypes.map str := by decide
+
+/-- `defaultMinLength` and `sniffLen` are the constants of encode.go -/
+theorem constants_match_source :
+    CaddyModel.Gen.encodeDefaultMinLength = some defaultMinLength ∧ CaddyModel.Gen.encodeSniffLen = some sniffLen := by
+  decide
+
+/-- the formats used when a directive names none are those of `UnmarshalCaddyfile` -/
+theorem caddyfile_defaults_match_source :
+    [vZstd, vGzip] = CaddyModel.Gen.encodeCaddyfileDefaultFormats.map str := by decide
 
 /-! ### non-vacuity: the hypotheses are met by concrete, non-trivial runs (kernel-evaluated) -/
 
